@@ -20,7 +20,7 @@ RULE = (
     "identifier, failed assert, unknown directive, misplaced sealing, invalid type parameter, invalid capacity, unknown data type, "
     "and the lazily committed / finalize-time ones: out-of-range constant, invalid attribute name, duplicate attribute name, bad "
     "aggregation, missing serialization mode, expression nested beyond the interpreter stack, file that is not UTF-8) and @print; prefix of 0..2 and suffix of 0..1 lines (thorough, in the target: prefix 0..3 x suffix 0..1 and prefix 0..2 x suffix 2) over "
-    "{empty, comment, field, field+comment, directive, padding field, constant, a directive that continues on the next physical line (line break inside a string literal), a comment containing FF / VT / FS / GS / RS / NEL / LS / PS, a directive on one physical line whose string literals denote line breaks through escapes}; LF / CRLF / lone CR / mixed line endings; location in {target, dependency in a lookup root, dependency of "
+    "{empty, comment, field, field+comment, directive, padding field, constant, a directive that continues on the next physical line (line break inside a string literal), a comment containing FF / VT / FS / GS / RS / NEL / LS / PS, a directive on one physical line whose string literals denote line breaks through escapes, a directive whose string literals hold raw FF / VT / FS / GS / RS / NEL / LS / PS}; LF / CRLF / lone CR / mixed line endings; location in {target, dependency in a lookup root, dependency of "
     "a dependency, dependency in the same root read after its referrer, dependency in the same root read before its referrer} with "
     "the reference on line 2..4 of the referrer. Non-trivial iff the prefix is non-empty or the location is not the target; "
     "distinct by canonical hash of the tuple"
@@ -30,7 +30,7 @@ ASSUMPTIONS = [
     "'exactly once per evaluated directive': a directive in the dependency closure is delivered once per read_namespace call",
 ]
 
-CTX = ["E", "C", "F", "F#", "A", "V", "K", "M", "X", "S"]
+CTX = ["E", "C", "F", "F#", "A", "V", "K", "M", "X", "S", "XS"]
 
 
 def ctx_line(sym, i, tag):
@@ -49,6 +49,9 @@ def ctx_line(sym, i, tag):
     if sym == "X":
         # characters that str.splitlines() treats as line boundaries but DSDL does not (only LF / CRLF / CR end a line)
         return "# form\x0cfeed vt\x0b fs\x1c gs\x1d rs\x1e nel\x85 ls\u2028 ps\u2029 end"
+    if sym == "XS":
+        # a string literal (one physical line) holding characters that str.splitlines() treats as line boundaries but DSDL does not
+        return "@assert 'ff\x0c vt\x0b fs\x1c gs\x1d rs\x1e' != \"nel\x85 ls\u2028 ps\u2029\""
     if sym == "S":
         # ONE physical line whose string literals DENOTE line breaks through escape sequences (and a continued comment look-alike)
         return "@assert 'a\\nb\\u000a\\r' != \"\\n\\n\"  # not continued \\"
